@@ -6,6 +6,7 @@ CONSTANTS
   Nids = {0, 1, 2}
   Bodies = {"x", "y", "nil"}
   Auxes = {1, 2}
+  Us = {0, 1}
   MaxOps = 1
   Depth = 1
   Mode = "pairs"
